@@ -38,6 +38,10 @@ CredIds == DOMAIN Creds
 Peers == {"signer-1", "signer-2"}
 Owner == [c1 |-> "c1", c2 |-> "c2"]       \* target -> the only client that may act on the targeted wallet
 
+\* how the server's own certificate file is set up: a bare leaf issued by the client CA; that leaf with the CA certificate appended;
+\* a leaf of ANOTHER hierarchy with its issuer appended (e.g. a public server certificate, private client CA).  Admission of a
+\* caller depends on the configured client CA only - never on what happens to be bundled with the server certificate.
+ServerModes == {"bare", "samechain", "foreignchain"}
 Admitted(c) == Creds[c].issued
 \* may a caller with verified name cn obtain data / a state change from method m aimed at target tg?
 MayObtain(cn, m, tg) == IF m \in PeerMethods THEN cn \in Peers ELSE cn = Owner[tg]
